@@ -195,19 +195,19 @@ def apply_backend(backend, refs, vals, op, model_before=None):
             v = val(vals, vk)
             m = refs.memento(f, a, v)
             backend.memoize(ovr, m, v)
-            refs.held[(id(backend), f, a)] = m
+            if not getattr(backend, "read_only", False):  # (a read-only backend skips the write: nothing to read through m)
+                refs.held[(id(backend), f, a)] = m
             return None
         if k == "readheld":
             m = refs.held.get((id(backend), op[1], op[2]))
-            if m is None or (model_before is not None and (op[1], op[2]) not in model_before):
-                return "absent" if (model_before is None or (op[1], op[2]) not in model_before) else ("value", backend.read_result(
-                    backend.get_memento(refs.fwah(op[1], op[2]))))
-            return ("value", backend.read_result(m))
+            if m is not None and (model_before is None or (op[1], op[2]) in model_before):
+                return ("value", backend.read_result(m))
+            k = "read"  # nothing in hand (or the entry was forgotten since): an ordinary read
         if k in ("read", "get"):
             m = backend.get_memento(refs.fwah(op[1], op[2]))
             if m is None:
                 return "absent"
-            if k == "get":
+            if op[0] == "get":
                 return ("present", m.invocation_metadata.result_type.name,
                         m.invocation_metadata.fn_reference_with_args.fn_reference.qualified_name,
                         m.invocation_metadata.fn_reference_with_args.arg_hash)
